@@ -1464,7 +1464,11 @@ func (r *Raft) sendRequestVote(
 	}
 
 	// If this an election and a majority of the cluster vote for this node, become the leader.
-	if !prevote && r.hasQuorum(*votes) && r.state == Candidate {
+	// A node that has just won a prevote is in the candidate state as well, but it has not
+	// started the election of the next term yet: an answer that arrives now belongs to an
+	// earlier election of the current term, which this node has left since. Its votes must
+	// not be counted against whatever the configuration is now.
+	if !prevote && !r.prevoteWon && r.hasQuorum(*votes) && r.state == Candidate {
 		r.becomeLeader()
 	}
 }
